@@ -849,6 +849,12 @@ def check_tomo(case, ctx):
     good = _tomo_compare(ctx, all(oks), got, f"{cls} ns={ns} np={npv} schedules={scheds!r}", case)
     if good and all(oks):
         ctx.check(res.experiment.schedules == scheds and res.num_schedules == len(scheds), "tomo_keeps_schedules")
+    # the same schedules in a tuple instead of a list: same decision, and the same schedules are run
+    got_t, res_t = _tomo_verdict(lambda: make_tomo(cls, states, povms, tuple(scheds), case["on_para"]))
+    ctx.check(got_t == got, "tomo_tuple_of_schedules_decided_like_list", lambda: f"{cls} schedules={scheds!r}: list -> {got}, tuple -> {got_t}")
+    if good and all(oks) and got_t == got:
+        ctx.check([list(x) for x in res_t.experiment.schedules] == [list(x) for x in scheds] and res_t.num_schedules == len(scheds),
+                  "tomo_tuple_of_schedules_keeps_schedules", lambda: f"{cls}: given {scheds!r}, runs {res_t.experiment.schedules!r}")
     # the class-specific rule decides (not only the experiment's rules)
     ctx.nontrivial(all(wfs) and (len(scheds) >= 2 or not all(oks)))
     if all(wfs) and not all(oks):
